@@ -2,5 +2,6 @@ SPECIFICATION Spec
 CONSTANTS
   NCallers = 3
   RecyclesWrappers = FALSE
+  SharedDefaults = FALSE
   OnceIsNilCheck = FALSE
 CHECK_DEADLOCK FALSE
